@@ -109,6 +109,13 @@ type Engine struct {
 	Disk *simdisk.Disk
 	File *txfile.File
 
+	// Attempt: the state a failed Commit tried to commit (nil if none since the last successful
+	// commit). After a reopen the file may legitimately show it when the failure was the final sync.
+	Attempts []State
+
+	// Dead: the File lost its memory mapping (a remap failed); nothing can be done with it any more
+	Dead bool
+
 	Committed State   // sequential model of the committed state
 	History   []State // committed states, oldest first (History[len-1] == Committed)
 
@@ -149,6 +156,9 @@ type Engine struct {
 func ErrKind(err error) string {
 	if err == nil {
 		return ""
+	}
+	if txerr.Is(txfile.OutOfMemory, err) {
+		return "oom"
 	}
 	if k := txerr.GetKind(err); k != nil {
 		if ek, ok := k.(txfile.ErrKind); ok {
@@ -342,6 +352,25 @@ func (e *Engine) detFlush() error {
 	return nil
 }
 
+// headerWrittenSince reports whether a write to one of the two header pages took effect after the
+// last marker with the given tag.
+func (e *Engine) headerWrittenSince(tag string) bool {
+	log := e.Disk.LogCopy()
+	start := 0
+	for i, op := range log {
+		if op.Kind == simdisk.OpMarker && op.Tag == tag {
+			start = i
+		}
+	}
+	ps := int64(e.File.PageSize())
+	for _, op := range log[start:] {
+		if op.Kind == simdisk.OpWrite && len(op.Data) > 0 && op.Off < 2*ps {
+			return true
+		}
+	}
+	return false
+}
+
 func (e *Engine) resetTx() {
 	e.Tx = nil
 	e.txPages, e.txW, e.txNew, e.txFreed, e.txFlushed = nil, nil, nil, nil, nil
@@ -371,7 +400,16 @@ func (e *Engine) Apply(op Op) (res Result) {
 			e.AfterOp(e, op, res)
 		}
 	}()
+	if e.Dead && op.Kind != "fault" {
+		return Result{Skipped: true}
+	}
 	res = e.apply(op)
+	if res.Err != "" && (op.Kind == "commit" || op.Kind == "reopen") && e.File != nil {
+		if s := txfile.VerifSnapshot(e.File); s.MappedLen == 0 {
+			e.Dead = true
+			e.fail("mapping-lost-after-failed-remap: %v returned an error (%s) after the file had been unmapped; the File has no memory mapping any more (header pointers dangle), every later access fails or reads garbage", op, res.Err)
+		}
+	}
 	return res
 }
 
@@ -645,9 +683,23 @@ func (e *Engine) apply(op Op) Result {
 		err := e.Tx.Commit()
 		if err != nil {
 			e.Disk.Marker("commit-fail")
+			att := e.Committed.Clone()
+			for id := range e.txFreed {
+				delete(att.Pages, id)
+			}
+			for id, b := range e.txW {
+				att.Pages[id] = b
+			}
+			att.Root = e.txRoot
+			att.Txid = e.Committed.Txid + 1
+			// only an attempt whose header write was issued can ever be seen again
+			if e.headerWrittenSince("commit-begin") {
+				e.Attempts = append(e.Attempts, att)
+			}
 			e.resetTx()
 			return Result{Err: ErrKind(err)}
 		}
+		e.Attempts = nil
 		e.Disk.Marker("commit-ok")
 		for id := range e.txFreed {
 			delete(e.Committed.Pages, id)
@@ -753,9 +805,35 @@ func (e *Engine) apply(op Op) Result {
 		}
 		e.File = nil
 		if err := e.open(opts); err != nil {
-			e.fail("reopen failed: %v", err)
+			if len(e.Attempts) > 0 {
+				e.fail("failed-commit-attempt-visible-but-incomplete: a commit attempt that had reported an error left its header on disk, and the file can not be opened any more: %v", err)
+			} else {
+				e.fail("reopen failed: %v", err)
+			}
 			return Result{Err: ErrKind(err)}
 		}
+		if tx := e.headerTxid(); len(e.Attempts) > 0 && tx == e.Committed.Txid+1 {
+			// the file shows a commit attempt that reported a failure (its header write reached the
+			// disk, its final sync failed): allowed, but then the state must be COMPLETE
+			adopted := false
+			var firstFail string
+			for i := len(e.Attempts) - 1; i >= 0 && !adopted; i-- {
+				var fails []string
+				VerifyFileState(e.File, e.Attempts[i], func(m string) { fails = append(fails, m) })
+				if len(fails) == 0 {
+					e.Committed = e.Attempts[i].Clone()
+					e.History = append(e.History, e.Committed.Clone())
+					adopted = true
+				} else if firstFail == "" {
+					firstFail = fails[0]
+				}
+			}
+			e.Stats["reopen-shows-failed-attempt"]++
+			if !adopted {
+				e.fail("failed-commit-attempt-visible-but-incomplete: after the reopen the header of a commit attempt that had reported an error is the newest one, but its state is not complete: %s", firstFail)
+			}
+		}
+		e.Attempts = nil
 		e.Committed.Txid = e.headerTxid()
 		return Result{}
 	}
@@ -882,6 +960,10 @@ func VerifyFileState(f *txfile.File, st State, fail func(string)) {
 // Close finishes all open transactions and closes the file.
 func (e *Engine) Close() {
 	defer func() { recover() }()
+	if e.Dead {
+		e.Tx, e.File = nil, nil
+		return
+	}
 	if e.Tx != nil {
 		e.Tx.Close()
 		e.resetTx()
